@@ -21,10 +21,11 @@ def pairs (s : String) : List (RDir × Nat) :=
     | [p, id] => id.toNat?.map fun n => (rdirOf p, n)
     | _ => none
 
-/-- nearest `.editorconfig` at or above a directory -/
+/-- nearest `.editorconfig` at or above a directory, walking the *lexical* ancestors (each of them
+denotes the directory `norm` gives) -/
 def nearestEc (ecs : List (RDir × Nat)) : RDir → Option Nat
   | [] => (ecs.find? (·.1 == [])).map (·.2)
-  | c :: rest => match ecs.find? (·.1 == c :: rest) with
+  | c :: rest => match ecs.find? (·.1 == norm (c :: rest)) with
       | some e => some e.2
       | none => nearestEc ecs rest
 
